@@ -184,6 +184,33 @@ Section Pool.
         * apply pinv_upd_none, pinv_upd; assumption.
         * rewrite plive_upd. erewrite plive_upd_same by eassumption. exact Hrest.
   Qed.
+
+  (** the per-heap invariant holds for every live heap after every well-scoped history *)
+  Theorem pool_invariant :
+    forall ops p, pinv p -> well_scoped K V mergeable (plive p) ops = true ->
+      pinv (p_final K V cmp eqv p ops).
+  Proof.
+    induction ops as [|[i a] ops IH]; intros p Hp Hws; simpl; [exact Hp|].
+    simpl in Hws. apply andb_true_iff in Hws as [Hli Hws].
+    destruct (nth_plive _ _ Hli) as [h Hh].
+    pose proof (Hp _ _ Hh) as Hinv.
+    rewrite Hh.
+    destruct a as [k v| | | | | |k|v|j];
+      try (match goal with
+           | |- context [h_act K V cmp eqv ?a h] =>
+               destruct (act_ok h a Hinv I) as (h' & r & Hact & Hinv' & Hstep); rewrite Hact; simpl;
+               apply IH; [apply pinv_upd; assumption | erewrite plive_upd_same by eassumption; assumption]
+           end).
+    apply andb_true_iff in Hws as [Hws Hrest].
+    apply andb_true_iff in Hws as [Hws Hlj].
+    apply andb_true_iff in Hws as [Hm Hij].
+    apply negb_true_iff in Hij. rewrite Hij.
+    destruct (nth_plive _ _ Hlj) as [hh Hhh]. rewrite Hhh.
+    destruct (merge_ok Hm h hh Hinv (Hp _ _ Hhh)) as (h' & Hmg & Hinv' & Hperm). rewrite Hmg. simpl.
+    apply IH.
+    - apply pinv_upd_none, pinv_upd; assumption.
+    - rewrite plive_upd. erewrite plive_upd_same by eassumption. exact Hrest.
+  Qed.
 End Pool.
 
 (** * The executable acceptor only accepts traces the specification allows *)
